@@ -117,6 +117,10 @@ def h_reject(params, vals, ctx):
     ctx.observe_outcome(o)
     ctx.reach(o.status in ("ok", "failed"))
     inside = ch.upper() in ALPHABET and len(ch.upper()) == 1
+    # the same text once more in the same process (fresh parser, fresh Compiler): the verdict may not change
+    o2 = assemble([("b.mac", '.word 1\n' + text)], vals, route=ctx.route)
+    if o2.status != o.status:
+        return False
     if not inside:
         return o.status == "failed" and "invalid-character" in o.error_ids
     if o.status != "ok" or o.errors:
